@@ -27,7 +27,10 @@ ASSUMPTIONS = [
     'tenors holding an m/q/y part start at midnight, and an h/n/s part in front of a later m/q/y part is a whole number of days (24h/48h) or is replaced by a day-based unit',
     'monotonicity of business-day bumps is demanded at day granularity: t1 <= t2 with the same time of day (the roll-forward keeps the time of day, so Saturday 10:00 vs Monday 09:00 is not a meaningful pair)',
     'spellings: optional "+" sign, upper or lower case unit letter, no white space, no zero padding; named tenors spot/on/o/n/tn/t/n/sn/s/n (any case) are taken as spellings of 0b/1b/2b/3b (documented in the dt_bump docstring)',
-    'integer bumps are python ints in [-60, 60] (days); timedelta bumps are within +-61 days with second and microsecond parts',
+    'integer bumps are python ints or numpy int64/int32/int16 (is_int accepts both) in [-60, 60] (days); timedelta bumps are within +-61 days with second and microsecond parts',
+    'separate bumps of one call may mix strings, ints, numpy ints and timedeltas (a d part as int / numpy int / timedelta, a w/h/n/s part as timedelta); '
+    'bumps may also be passed as ONE list argument (dt_bump and dt unwrap it with as_list): same result, and the caller\'s list must be left unchanged',
+    'same-date siblings: after a bump from t the same bump is asked from another time of day of the same date (half of them differ in the microsecond only) and must follow its own oracle',
     'inverse law +x then -x: fixed-length units/ints/timedeltas from any start, business days from a weekday start, m/q/y from midnight with day of month <= 28',
 ]
 
@@ -879,7 +882,8 @@ SUBS = [
     Sub('bday', lambda tier: _bday_case(), run_bday, quick=5000, thorough=20000,
         rule="start anywhere in 1900-2299 (any time of day), n in [-60,60], spelled 'nb' with optional '+' / upper case or as named tenor spot/on/tn/sn, "
              'through dt_bump and dt; oracle: day-by-day walk skipping Sat/Sun after rolling a weekend start to Monday (cross-checked with a weekday table); '
-             'lands on weekday, monotone against t + 0..9 days, from a weekday: a then b == a+b (two calls, two bumps, compound string), +n then -n returns. '
+             'lands on weekday, monotone against t + 0..9 days, from a weekday: a then b == a+b (two calls, two bumps, compound string), +n then -n returns; '
+             'named tenors in lower / upper / title case; the same bump from a sibling time on the same date (other microsecond / other time) right afterwards. '
              'non-trivial = starts on a weekend or crosses one',
         floor=0.4, class_floors={'start_weekend': 0.15, 'n<0': 0.25, 'intraday': 0.3, 'composed': 0.3, 'named_tenor': 0.01, 'named_tenor_mixed_case': 0.003,
                                  'sibling_same_second': 0.3, 'sibling_other_time': 0.1, 'microseconds_only': 0.03, 'n=0': 0.01}),
@@ -891,7 +895,7 @@ SUBS = [
                  "'ab' then 'bb' == '(a+b)b' as two calls, as two bumps of one call and as one compound string; each also equals the weekday table"),
     Sub('fixed_units', lambda tier: _fixed_case(), run_fixed, quick=4000, thorough=10000,
         rule="start anywhere in 1900-2299 with seconds/microseconds; bump = 'nd','nw','nh','nn','ns' (n in [-60,60], optional '+', either case), int n, or timedelta "
-             '(days, seconds, microseconds); through dt_bump and dt; oracle t + timedelta; +x then -x returns to t. '
+             '(days, seconds, microseconds), numpy ints; through dt_bump and dt; oracle t + timedelta; +x then -x returns to t; same bump from a sibling time on the same date. '
              'non-trivial = non-zero bump from an intraday start or into another month',
         floor=0.3, class_floors={'int': 0.04, 'npint': 0.04, 'td': 0.05, 'negative': 0.25, 'intraday_unit_crosses_midnight': 0.02, 'zero_bump': 0.02,
                                  'sibling_same_second': 0.3, 'sibling_other_time': 0.1, 'microseconds_only': 0.03}),
@@ -908,7 +912,9 @@ SUBS = [
                  "every spelling ('n', '+n', upper case, int and timedelta for days, timedelta for w/h/n/s, named tenors for 0b..3b) through dt_bump and dt"),
     Sub('compound', lambda tier: _compound_case(), run_compound, quick=6000, thorough=30000,
         rule='two- and three-part tenors over all nine unit letters, n in [-60,60] each, optional + / upper case per part, as one string or as separate bumps, '
-             'through dt_bump and dt; oracle: left fold of the single-part oracles. non-trivial = parts of both signs',
+             'as one list argument (list left unchanged) or as separate bumps of mixed types (str / int / numpy int / timedelta), through dt_bump and dt; '
+             'a share with a part repeated verbatim (adjacent or first == last), with zero parts, and with a sibling start on the same date; '
+             'oracle: left fold of the single-part oracles. non-trivial = parts of both signs',
         floor=0.2, class_floors={'has_month': 0.3, 'has_b': 0.15, 'k=3': 0.3, 'month_overflow': 0.006, 'b_from_weekend': 0.03, 'later_part_negative': 0.3,
                                  'duplicate_part': 0.06, 'duplicate_first_last': 0.01, 'zero_part': 0.04, 'order_matters': 0.08, 'bump_types_mixed': 0.06,
                                  'non_string_bump_first': 0.02, 'how=list': 0.03, 'how=dt_list': 0.03, 'sibling_same_second': 0.1, 'sibling_other_time': 0.03}),
